@@ -60,6 +60,8 @@ META_POOL = [
     ("setup", "flow rate", [0.04, 0.16]),
     ("setup", "medium", ["CellCarrier", "water", "other"]),
     ("setup", "chip region", ["channel", "Reservoir"]),
+    # a version chain taken over from an old measurement; the writer appends its brand
+    ("setup", "software version", ["ShapeIn 2.0.2 | dclab 0.35.0", "ShapeIn 2.4.0"]),
     ("imaging", "roi size x", [9, 250]),
     ("imaging", "roi size y", [6, 80]),
     ("online_contour", "no absdiff", [True, False]),
@@ -144,6 +146,33 @@ def st_spec(draw):
 
 def strategy(tier):
     return st_spec()
+
+
+def _mi(sec, key):
+    return [i for i, (s_, k_, _) in enumerate(META_POOL) if (s_, k_) == (sec, key)][0]
+
+
+def enumerate_cases(tier):
+    """deterministic members of classes that random mixing reaches too rarely"""
+    out = []
+    # stored float64 time + frame + frame rate under software-version chains of
+    # an old measurement (readers decide from the chain whether `time` is trusted)
+    for vi in (0, 1):
+        for reopen in (False, True):
+            meta_op = {"op": "meta", "items": [[_mi("setup", "software version"), vi, 0],
+                                               [_mi("imaging", "frame rate"), 0, 0]]}
+            f_time = {"op": "feat", "f": "time", "k": 9, "seed": 3, "variant": 0,
+                      "vals": [0.0, 0.37, 1.91, 2.5, 7.25, 9.0]}
+            f_frame = {"op": "feat", "f": "frame", "k": 9, "seed": 4, "variant": 0,
+                       "vals": [11, 410, 3000, 3001, 9000, 20000]}
+            s1 = {"mode": "append", "chunk": None, "complete": not reopen,
+                  "ops": [meta_op, f_time, f_frame]}
+            sessions = [s1] + ([{"mode": "append", "chunk": 100, "complete": True,
+                                 "ops": [f_time, f_frame]}] if reopen else [])
+            out.append({"n": 12, "feats": ["deform", "frame", "time"],
+                        "sessions": sessions, "fin_chunk": None, "fin_split": 2,
+                        "fin_seed": 5})
+    return out
 
 
 # ------------------------------------------------------------ data generation
@@ -583,6 +612,11 @@ def _verify(spec, rec, path, model, N, truncated_logs):
                         "image" in model.feat or "mask" in model.feat):
                     continue    # overwritten from the image shape (checked below)
                 got = ds.config[sec].get(key)
+                if key == "software version":
+                    rec.check(isinstance(got, str) and got.startswith(val)
+                              and got.endswith("dclab 0.62.7"), "meta/software-version",
+                              lambda: f"software version {got!r} for given {val!r}")
+                    continue
                 typ = META_TYPES.get(key)
                 ok = got == val and (typ is None or isinstance(got, typ)) \
                     and not (typ in (int, float) and isinstance(got, bool))
